@@ -92,7 +92,7 @@ def run_repo_tests(prop: str) -> Dict[str, Any]:
             "other_kinds": kinds, "violations": viol, "pytest_rc": rc}
 
 
-def run_family(prop: str, fam: str, tier: str, seed: int, num: int, depth: int, nprof: int, scen=None, timing: bool = True) -> Dict[str, Any]:
+def run_family(prop: str, fam: str, tier: str, seed: int, num: int, depth: int, nprof: int, scen=None, timing: bool = True, log_level=None) -> Dict[str, Any]:
     if scen == "repo-tests":
         return run_repo_tests(prop)
     if scen is not None:
@@ -115,6 +115,8 @@ def run_family(prop: str, fam: str, tier: str, seed: int, num: int, depth: int, 
     if nprof >= 2:
         # at least one concretisation runs with the manager's own logging switched on (its default in production)
         profiles[-1] = Profile(seed * 7 + nprof - 1, log_level=20 if seed % 2 == 0 else 10)
+    if log_level is not None:
+        profiles = [Profile(seed * 7 + i, log_level=log_level) for i in range(nprof)]      # the manager's own logging switched on
     for pr in profiles:
         pr.timing = timing          # send_msg_timing option of the manager
     runs = engine.replay_all(behs, profiles)
@@ -129,6 +131,9 @@ def run_family(prop: str, fam: str, tier: str, seed: int, num: int, depth: int, 
         pf = partial_frame_step(r["ev"])
         if pf and (v["res"] == "ok" or pf < v.get("step", 0)):
             v = {"tid": v["tid"], "res": "fail", "step": pf, "props": ["C05.PartialFrame"]}
+        elif pf and pf == v.get("step", 0):
+            # the step the specification rejects ALSO leaves a torn frame on a connection that stays open
+            v = dict(v, props=sorted(set(v.get("props", [])) | {"C05.PartialFrame"}))
         # the manager thread died with an exception: C03, whatever else the trace shows
         if r.get("crashed") and not str(r["crashed"]).startswith(("WouldBlock", "HarnessError")):
             v = dict(v, res="fail", props=sorted(set(v.get("props", [])) | {"C03"}), step=v.get("step") or len(r["ev"]))
@@ -167,7 +172,7 @@ def run(prop: str, tier: str, seed: int) -> Dict[str, Any]:
         q = tier == "quick"
         res = run_family(prop, item["fam"], tier, seed, num=item["num_q"] if q else item["num_t"],
                          depth=item.get("depth", 80), nprof=item.get("prof_q", 2) if q else item.get("prof_t", 4),
-                         scen=item.get("scen"), timing=item.get("timing", True))
+                         scen=item.get("scen"), timing=item.get("timing", True), log_level=item.get("log_level"))
         states += res["mc"].get("distinct", 0)
         trans += res["mc"].get("states", 0)
         ntr += len(res["runs"])
